@@ -5,7 +5,7 @@
 From Coq Require Import ZArith QArith List Bool String.
 Require Import WV.model.C06Cascade WV.model.C06Inherit WV.model.C06Values.
 Require Import WV.proofs.C06_cascade WV.proofs.C06_order WV.proofs.C06_inherit WV.proofs.C06_values.
-Require WV.base.Py WV.gen.GenCss WV.proofs.C06_gen_precedence.
+Require WV.base.Py WV.gen.GenCss WV.proofs.C06_gen_precedence WV.gen.GenMedia WV.proofs.C06_gen_media.
 Import ListNotations.
 
 (* ================================================================ 1. the cascade *)
@@ -240,3 +240,12 @@ Theorem C06_media_selects (ql : list string) (dev : string) :
   evaluate_media_query ql dev = true <-> In "all"%string ql \/ In dev ql.
 Proof. exact (media_selects ql dev). Qed.
 Print Assumptions C06_media_selects.
+
+(* evaluate_media_query REGENERATED from weasyprint/css/media_queries.py computes the model above, for every list
+   of media types and every device type *)
+Theorem C06_source_evaluate_media_query (ql : list string) (dev : string) :
+  Py.run Py.real_ops GenMedia.evaluate_media_query_body
+    [("query_list"%string, Py.VList (map Py.VStr ql)); ("device_media_type"%string, Py.VStr dev)]
+    (fun _ r => r = Some (Py.VBool (evaluate_media_query ql dev))) (fun _ => False).
+Proof. exact (C06_gen_media.gen_evaluate_media_query ql dev). Qed.
+Print Assumptions C06_source_evaluate_media_query.
